@@ -52,7 +52,9 @@ def check(pid, engine, category, text, note, technique, design_ref, thorough=Tru
 
 check("C07", "immut+hypothesis", "exploration",
       "Hypothesis generates and shrinks programs of 2-14 steps: construct a field by every public constructor from a "
-      "tracked source array (fresh / view / non-contiguous / 0-d / complex / Fortran-ordered), derive fields, take handles "
+      "tracked source array (fresh / view / non-contiguous / 0-d / complex / Fortran-ordered / ndarray subclasses, also "
+      "with a wrapper of the source that exists before the field), from arrays derived through the public API from existing "
+      "handles (fancy and mask indexing, pickle, deepcopy, copies), derive fields, take handles "
       "(val, raw, asnumpy, val.val, slices, views, reshape, T, real, to_dict, writable copies), build dependent operators "
       "(makeOp, Adder, GaussianEnergy, inverse) and WRITE at arbitrary instants through the source array or any handle "
       "(item/slice assignment, +=, *=, ufunc out=, fill, sort, put, flat, copyto, AnyArray in-place). After every step "
@@ -64,10 +66,14 @@ check("C07", "immut+hypothesis", "exploration",
       "DESIGN.md 3.6")
 
 check("C21", "repro", "exploration",
-      "(a) classic MGVI/geoVI/MAP runs, a JAX VI run and raw draw sequences are executed in fresh interpreters under "
-      "different PYTHONHASHSEED values and twice in one process with unrelated work in between: all result components must "
-      "be bit-identical; (b) the same JAX VI problem runs under every legal residual_map x kl_map x jit x minimizer-jit "
-      "combination (32 variants): positions and samples must agree to 1e-6 x scale; (c) Hypothesis generates programs over "
+      "(a) classic MGVI/geoVI/MAP runs (single and multi-likelihood, correlated-field models, with and without an output "
+      "directory whose pickles are the observation), JAX VI runs (plain, correlated-field, with output directory) and raw "
+      "draw sequences are executed in fresh interpreters under different PYTHONHASHSEED values and twice in one process with "
+      "unrelated work in between: all result components must be bit-identical; (b) the same JAX VI problem (a 9-parameter "
+      "one and a 96-parameter one whose sampling CG needs > 20 iterations) runs under every legal residual_map x kl_map x jit "
+      "x minimizer-jit combination with the jittable static solvers and, where legal, the default eager solvers (37 "
+      "variants): positions and samples must agree with the driver's default configuration to 1e-8 x scale; (c) Hypothesis "
+      "generates programs over "
       "nifty.cl.random (nested Context, push/pop, spawn, four kinds of draws, exceptions raised at arbitrary statements and "
       "caught at arbitrary levels) that run against the real module and a model interpreter holding its own stack of "
       "independent generators: event traces, stack depths and generator identity after every scope must agree.",
@@ -127,8 +133,10 @@ check("C25", "crashsim", "fault_enumeration",
       "DESIGN.md 3.4")
 
 check("C26", "mpisim+hypothesis", "exploration",
-      "Hypothesis generates and shrinks histories of phases; a phase is 1-3 collective sample-list operations (save with "
-      "any ordered partition incl. empty ranks and overwrite on/off, load, average/sample_stat, HDF5 export with all flag "
+      "Hypothesis generates and shrinks histories of phases; a phase is 1-3 collective sample-list operations (save of 1-13 "
+      "samples - two-digit counts included - with any ordered partition incl. empty ranks and overwrite on/off, re-saves a "
+      "little shorter/longer than the list on disk, master-only saves, collective and non-collective loads, "
+      "average/sample_stat incl. ill-conditioned values, HDF5 export with all flag "
       "combinations) run back-to-back by N in 1..4 simulated ranks under a seeded schedule and send semantics on a "
       "simulated disk that persists across phases (N changes between phases), plus StatCalculator sequences. Oracle: "
       "reference model base -> samples last saved (every sample has a unique content id); loads must return exactly the "
@@ -141,7 +149,8 @@ check("C26", "mpisim+hypothesis", "exploration",
 
 check("C27", "drivercfg+hypothesis", "exploration",
       "Weakest fit of the claimed set (the quantifier is over configurations). Unit of exploration = a history of driver "
-      "invocations in one process: pass 1 runs every row of a seeded pairwise covering array over 19 option factors; pass 2 "
+      "invocations in one process: pass 1 runs every row of a seeded pairwise covering array over 20 option factors (incl. how the callbacks are "
+      "declared: plain, default argument, functools.partial, callable object, bound method, *args); pass 2 "
       "lets Hypothesis generate and shrink histories of 1-4 invocations (free combinations, not only array rows) with "
       "environment events in between (output directories kept/removed/switched, extra RNG-stack entry). Oracle per "
       "invocation: completes; return type; sample count of the result; constants bit-unchanged; point estimates carry no "
